@@ -6,7 +6,7 @@ Next ==
   /\ i < NRec
   /\ i' = i + 1
   /\ LET e == Rec[i'] IN
-       /\ Judge(i', << <<"NoPanic", ~e.panic>>, <<"Avg", MonAvg(e)>>, <<"RewardMono", MonRewardMono(e)>>,
+       /\ Judge(i', << <<"NoPanic", ~e.panic>>, <<"Avg", MonAvg(e)>>, <<"RewardMono", MonRewardMono(e)>>, <<"RewardMonoWide", MonRewardMonoWide(e)>>,
                        <<"Partial", MonPartial(e)>>, <<"FullSweeps", MonFullSweeps(e)>>,
                        <<"AllIsFull", MonAllIsFull(e)>>, <<"ClaimDisabled", MonClaimDisabled(e)>> >>)
        /\ Drift(i', ~e.panic /\ Conforms(e), e.op)
